@@ -293,10 +293,10 @@ class SE2(SO2):
 
             elif argcheck.isscalar(x):
                 self.data = [tr.trot2(x, unit=unit)]
-            elif len(x) == 2:
+            elif argcheck.isvector(x, 2):
                 # SE2([x,y])
                 self.data = [tr.transl2(x)]
-            elif len(x) == 3:
+            elif argcheck.isvector(x, 3):
                 # SE2([x,y,theta])
                 self.data = [tr.trot2(x[2], t=x[:2], unit=unit)]
 
